@@ -12,7 +12,7 @@ RULE = ("operation sequences (<=40 ops quick, <=300 thorough) over two lists (+c
         "Non-trivial: >=6 ops with at least one rejected or handle-based op; distinct = distinct case lines.")
 TRUSTED = ["encoding/json on ints ([a,b,c] text) is modelled as string formatting"]
 ASSUMPTIONS = ["Extend(l, l) (a list extended with itself) never terminates in the implementation: open finding dt.List.Extend:self, confirmed by its witness on every run; the generator does not emit that shape",
-               "methods are not called on nil receivers (Go would panic); nil is used as an argument only",
+               "methods are not called on nil receivers (Go would panic) except Element.In, which is documented for a nil element; otherwise nil is used as an argument only",
                "next/prev are only requested from attached elements or roots (detached elements keep stale pointers)"]
 
 KEY_SWAP = "dt.Element.Swap:any"
@@ -170,6 +170,8 @@ def corpus():
         "(seq (newstack) (push S0 1) (push S0 2) (push S0 3) (head S0) (snext i0) (srm i1) (siter S0) (sjson S0))",
         "(seq (newlist) (unjson L0 (1 2 3)) (json L0) (piter L0) (popf L0) (rpiter L0))",
         "(seq (newlist) (unjson L0 (1 null 3)) (json L0) (iter L0) (riter L0))",
+        # Element.In on the nil handle (Next of an element that was never in a list) is documented false
+        "(seq (newlist) (newlist) (le 1) (next e0) (pb L0 3) (prev e0) (back L0) (app e3 e0) (next e0))",
         # Pop on a zero-value stack must not disable later pushes
         "(seq (nspop) (push S0 1) (push S0 2) (siter S0))",
     ]
